@@ -173,3 +173,64 @@ Example C10_ex_star_mixed_rejected :
   parse [K KSelect; K KAstrsk; K KComma; r_ident "a"; K KFrom; r_ident "t"] = PErr EUnexpected /\
   parse [K KSelect; K KAstrsk; K KFrom; r_ident "t"; K KLimit; (KInt, "-1")] = PErr ENegLimit.
 Proof. vm_compute. repeat split; reflexivity. Qed.
+
+(* ---- oracle soundness (Proofs/ParseOracle.v): the SM oracle of the correspondence run
+        (tools/props/c10.py: c10_spec, "Go parsed the text to exactly the generated tree" - stmt_eqb,
+        which is Leibniz equality of the WHOLE tree by C10_stmt_eqb_is_equality) accepts the model's
+        own behaviour on every case inside the scope of C10_roundtrip; hence on such a case, if the
+        model agrees with Go (MM) then the oracle accepts what Go did (SM). The hypothesis is the
+        check's own SCOPE function `c10_in_scope`: wf_stmt o s, and the text the generator wrote lexes
+        (Go scanner, then the modelled wrapper) to exactly `render o s`. It is needed: outside it the
+        generated tree and the written text are unrelated (C10_scope_needed). ---- *)
+From Mkdb Require Import Proofs.ParseOracle.
+
+Theorem C10_agreement_implies_acceptance : forall c,
+  c10_in_scope c = true -> c10_model c = true -> c10_spec c = true.
+Proof. exact c10_agreement_implies_acceptance. Qed.
+Print Assumptions C10_agreement_implies_acceptance.
+
+Theorem C10_oracle_accepts_model : forall s o raws g,
+  c10_in_scope (s, o, raws, g) = true ->
+  c10_model (s, o, raws, gout_of (parse_pipeline raws)) = true /\
+  c10_spec (s, o, raws, gout_of (parse_pipeline raws)) = true.
+Proof. exact c10_oracle_accepts_model. Qed.
+Print Assumptions C10_oracle_accepts_model.
+
+Example C10_scope_needed :
+  let o := mkOpts (num_of []) [] [] [] [] false false None false in
+  let raws := [mkRaw RIdent "use" false; mkRaw RIdent "b" false] in
+  let c : c10_case := (SUse "a", o, raws, gout_of (parse_pipeline raws)) in
+  c10_model c = true /\ c10_spec c = false /\ c10_in_scope c = false.
+Proof. exact c10_scope_needed. Qed.
+
+(* non-vacuity: SELECT a, count( * ) AS n FROM t INNER JOIN u ON a = b WHERE a != 007 GROUP BY a
+   ORDER BY n LIMIT 10 ;  as raw tokens of the Go scanner; observed: the tree. In scope, the model
+   agrees, the oracle accepts; an observation with ONE literal changed deep in the tree (10 -> 11 in
+   LIMIT, or the WHERE literal) is rejected by the oracle. *)
+Definition ex_c10_opts : ropts :=
+  mkOpts (num_of [(7, "007"); (10, "10")]) [false; true] [true] [false] [] false false None true.
+Definition ex_c10_sel (w lim : Z) : stmt :=
+  SSelect (mkSelect
+    [mkDC (SPExpr (EVal (XCol (mkCol "" "a")))) ""; mkDC (SPCount None) "n"]
+    [TRJoin (TRName "t" None) JInner (TRName "u" None) (EPred (XCol (mkCol "" "a")) CEq (XCol (mkCol "" "b")))]
+    (Some (EPred (XCol (mkCol "" "a")) CNeq (XLit (VInt w))))
+    [mkCol "" "a"] [mkSort (mkCol "" "n") SAsc] true false lim 0).
+Definition ex_c10_raws : list rawtok :=
+  [mkRaw RIdent "SELECT" false; mkRaw RIdent "a" false; mkRaw ROther "," false;
+   mkRaw RIdent "count" false; mkRaw ROther "(" false; mkRaw ROther "*" false; mkRaw ROther ")" false;
+   mkRaw RIdent "As" false; mkRaw RIdent "n" false; mkRaw RIdent "from" false; mkRaw RIdent "t" false;
+   mkRaw RIdent "inner" false; mkRaw RIdent "JOIN" false; mkRaw RIdent "u" false; mkRaw RIdent "on" false;
+   mkRaw RIdent "a" false; mkRaw ROther "=" false; mkRaw RIdent "b" false;
+   mkRaw RIdent "where" false; mkRaw RIdent "a" false; mkRaw ROther "!" true; mkRaw ROther "=" false;
+   mkRaw RInt "007" false; mkRaw RIdent "group" false; mkRaw RIdent "by" false; mkRaw RIdent "a" false;
+   mkRaw RIdent "order" false; mkRaw RIdent "by" false; mkRaw RIdent "n" false;
+   mkRaw RIdent "limit" false; mkRaw RInt "10" false; mkRaw ROther ";" false].
+
+Example C10_ex_agreement :
+  let c g : c10_case := (ex_c10_sel 7 10, ex_c10_opts, ex_c10_raws, g) in
+  c10_in_scope (c (GOk (ex_c10_sel 7 10))) = true /\
+  c10_model (c (GOk (ex_c10_sel 7 10))) = true /\ c10_spec (c (GOk (ex_c10_sel 7 10))) = true /\
+  c10_spec (c (GOk (ex_c10_sel 7 11))) = false /\ c10_spec (c (GOk (ex_c10_sel 8 10))) = false /\
+  c10_model (c (GOk (ex_c10_sel 7 11))) = false /\
+  c10_spec (c (GErr 1)) = false /\ c10_spec (c GPanic) = false /\ c10_spec (c GUnrep) = false.
+Proof. vm_compute. repeat split; reflexivity. Qed.
